@@ -30,7 +30,7 @@ MUTANTS = [
     ("dry-run-creates-directories", "C08", "nunavut/jinja/__init__.py", "        template_gen = template.generate(T=input_type)\n        if not is_dryrun:", "        template_gen = template.generate(T=input_type)\n        output_path.parent.mkdir(parents=True, exist_ok=True)\n        if not is_dryrun:"),
     ("list-outputs-forgets-namespace-types-flag", "C08", "nunavut/cli/runners.py", "            self._stdout_lister(self._generator.generate_all(is_dryrun=True), str)", "            self._stdout_lister([p for p in self._generator.generate_all(is_dryrun=True) if p.stem != self._args.namespace_output_stem], str)"),
     ("list-inputs-drops-user-subdir-templates", "C08", "nunavut/jinja/loaders.py", 'glob("**/*{}".format(TEMPLATE_SUFFIX))', 'glob("*{}".format(TEMPLATE_SUFFIX))'),
-    ("unique-name-not-reset", "C10", "nunavut/jinja/__init__.py", "        UniqueNameGenerator.reset()\n", "        pass\n"),
+    ("unique-name-reset-only-once", "C10", "nunavut/jinja/__init__.py", "        UniqueNameGenerator.reset()\n", "        UniqueNameGenerator._singleton or UniqueNameGenerator.reset()  # pylint: disable=protected-access\n"),
     ("limiter-reset-dropped-for-types", "C10", "nunavut/jinja/__init__.py", "        template_gen = template.generate(T=input_type)\n        if not is_dryrun:\n            _reset_line_post_processors(self._post_processors)", "        template_gen = template.generate(T=input_type)\n        if not is_dryrun:\n            pass"),
     ("includes-unsorted", "C07", "nunavut/lang/_common.py", "            return sorted(path_list_with_punctuation + self._language.get_includes(dep_types))", "            return path_list_with_punctuation + self._language.get_includes(dep_types)"),
     ("c-header-timestamp-ungated", "C07", "nunavut/lang/c/templates/base.j2", "// Source file:   {{ T.source_file_path.name }}", "// Source file:   {{ T.source_file_path.name }}\n// Generated at:  {{ now_utc }} UTC"),
@@ -43,13 +43,14 @@ MUTANTS = [
     ("default-value-displaces-explicit", "C13", "nunavut/_utilities.py", "            if isinstance(value, DefaultValue) and not isinstance(target[key], DefaultValue):\n                return target[key]", "            if isinstance(value, DefaultValue) and not isinstance(target[key], (DefaultValue, bool)):\n                return target[key]"),
     ("config-loader-shared-between-builders", "C13", "nunavut/lang/_language.py", "        if self._config is None:\n            self._config = self._load_config()\n        return self._config", "        if self._config is None:\n            self._config = self._cached_config()\n        return self._config\n\n    @classmethod\n    @functools.lru_cache()\n    def _cached_config(cls) -> LanguageConfig:\n        return cls._load_config()"),
     ("loader-order-swapped", "C16", "nunavut/jinja/loaders.py", "        if self._fsloader is not None:\n            try:\n                return typing.cast(\n                    typing.Tuple[typing.Any, str, typing.Callable[..., bool]],\n                    self._fsloader.get_source(environment, template),\n                )\n            except TemplateNotFound:\n                if self._package_loader is None:\n                    raise", "        if self._fsloader is not None and self._package_loader is None:\n            try:\n                return typing.cast(\n                    typing.Tuple[typing.Any, str, typing.Callable[..., bool]],\n                    self._fsloader.get_source(environment, template),\n                )\n            except TemplateNotFound:\n                if self._package_loader is None:\n                    raise"),
-    ("template-lookup-first-match-any-ancestor", "C16", "nunavut/jinja/loaders.py", "            current_search_type = search_queue.pop()\n", "            current_search_type = search_queue.popleft()\n"),
-    ("instance-test-alias-prefix", "C16", "nunavut/jinja/__init__.py", '            tests[root_name_lower[:-4]] = _field_is_instance', '            tests[root_name_lower[:-4]] = tests.get(root_name_lower[:-4], _field_is_instance)'),
+    ("template-lookup-cache-shared-by-all-loaders", "C16", "nunavut/jinja/loaders.py", "        self._type_to_template_lookup_cache: typing.Dict[pydsdl.Any, pathlib.Path] = dict()\n", "        self._type_to_template_lookup_cache = DSDLTemplateLoader.__dict__.setdefault('_shared', {}) if False else _SHARED_LOOKUP_CACHE\n"),
+    ("template-lookup-skips-direct-base", "C16", "nunavut/jinja/loaders.py", "                    if base_type != object and base_type not in discovered:", "                    if base_type != object and base_type not in discovered and base_type.__name__ != 'CompositeType':"),
+    ("instance-test-alias-rstrip", "C16", "nunavut/jinja/__init__.py", '            tests[root_name_lower[:-4]] = _field_is_instance', '            tests[root_name_lower.rstrip("type")] = _field_is_instance'),
+    ("instance-test-ignores-attribute-data-type", "C16", "nunavut/jinja/__init__.py", "                return isinstance(field_or_datatype.data_type, root)", "                return isinstance(field_or_datatype.data_type, root) and not isinstance(field_or_datatype, pydsdl.PaddingField)"),
     ("c-deserialize-drops-count-check", "C04", "nunavut/lang/c/templates/deserialization.j2", "    if ({{ reference }}.count > {{ t.capacity }}U)\n{% endif %}\n    {\n        return -NUNAVUT_ERROR_REPRESENTATION_BAD_ARRAY_LENGTH;\n    }", "    if ({{ reference }}.count > {{ t.capacity + 1 }}U)\n{% endif %}\n    {\n        return -NUNAVUT_ERROR_REPRESENTATION_BAD_ARRAY_LENGTH;\n    }"),
     ("cpp-emplace-without-destroy", "C04", "nunavut/lang/cpp/templates/_fields_as_union.j2", "            destroy_current();\n            typename alternative<I>::type& result = do_emplace<I>(v...);", "            typename alternative<I>::type& result = do_emplace<I>(v...);"),
     ("c-getbits-ignores-buffer-end", "C04", "nunavut/lang/c/support/serialization.j2", "    const {{ typename_unsigned_bit_length }} sat_bits = nunavutSaturateBufferFragmentBitLength({# -#}\n        buf_size_bytes, off_bits, len_bits);", "    const {{ typename_unsigned_bit_length }} sat_bits = len_bits; (void) buf_size_bytes;"),
     ("cpp-vla-clear-dropped", "C04", "nunavut/lang/cpp/templates/deserialization.j2", "        {{ reference }}.clear();\n", ""),
-    ("c-union-tag-check-off-by-one", "C04", "nunavut/lang/c/templates/deserialization.j2", None, None),  # filled below if the anchor exists
     ("include-path-not-stropped", "C11", "nunavut/lang/_common.py", '            return [language.filter_id(x, id_type="path") for x in dt.full_namespace.split(".")]', '            return [language.filter_id(x, id_type="path") if i else x for i, x in enumerate(dt.full_namespace.split("."))]'),
     ("empty-intermediate-namespace-skipped", "C11", "nunavut/_namespace.py", "            for i in range(len(dsdl_type.name_components) - 1, 0, -1):", "            for i in range(len(dsdl_type.name_components) - 1, max(0, len(dsdl_type.name_components) - 3), -1):"),
     ("support-written-to-cwd-when-relative", "C11", "nunavut/jinja/__init__.py", "        target_path = pathlib.Path(self.namespace.get_support_output_folder()) / self._sub_folders", "        target_path = pathlib.Path(pathlib.PurePath(self.namespace.get_support_output_folder()).name) / self._sub_folders if not pathlib.PurePath(self.namespace.get_support_output_folder()).is_absolute() and len(pathlib.PurePath(self.namespace.get_support_output_folder()).parts) > 2 else pathlib.Path(self.namespace.get_support_output_folder()) / self._sub_folders"),
@@ -62,12 +63,15 @@ def apply_mutant(src: str, rel: str, old: str, new: str) -> bool:
         text = f.read()
     if old is None or text.count(old) != 1:
         return False
+    text = text.replace(old, new)
+    if "_SHARED_LOOKUP_CACHE" in new:
+        text += "\n\n_SHARED_LOOKUP_CACHE: typing.Dict[typing.Any, pathlib.Path] = {}\n"
     with open(p, "w", encoding="utf-8") as f:
-        f.write(text.replace(old, new))
+        f.write(text)
     return True
 
 
-def run_check(prop: str, src: str, budget: int = 400) -> typing_tuple:
+def run_check(prop: str, src: str, budget: int = 400) -> tuple:
     env = dict(os.environ)
     env.update({"NUNAVUT_SRC": src, "VERIF_NO_EVIDENCE": "1", "VERIF_QUIET": "1", "VERIF_MINIMISE_RUNS": "0", "VERIF_SEED": os.environ.get("VERIF_SEED", "20260926")})
     t0 = time.time()
@@ -89,7 +93,6 @@ def run_check(prop: str, src: str, budget: int = 400) -> typing_tuple:
     return rc, sigs, time.time() - t0
 
 
-typing_tuple = tuple
 
 
 def main() -> int:
